@@ -307,12 +307,15 @@ macro_rules! bodies {
 
             /// One real `UpdateFundingState::execute` from an arbitrary funding state: the four
             /// funding-per-size and the four claimable-funding-per-size indices never decrease.
-            pub fn execute_indices_only_grow() {
+            pub fn execute_indices_only_grow(fixed_adjustment: Option<T>) {
                 let mut mk = funding_market(1);
                 mk.open_interest = Side2 { long: VPool::any(), short: VPool::any() };
                 mk.funding_amount_per_size = Side2 { long: VPool::any(), short: VPool::any() };
                 mk.claimable_funding_amount_per_size = Side2 { long: VPool::any(), short: VPool::any() };
-                mk.funding_amount_per_size_adjustment = kani::any();
+                mk.funding_amount_per_size_adjustment = match fixed_adjustment {
+                    Some(a) => a,
+                    None => kani::any(),
+                };
                 mk.passed_funding = kani::any();
                 let prices: Prices<T> = any_prices(false);
                 let pre = mk;
@@ -469,12 +472,23 @@ fn c12_next_factor_exact_ref_u16() {
 
 //@ prop=C12 tier=quick kind=hold
 //@ enc=UpdateFundingState::{execute,next_funding_amount_per_size,next_funding_factor_per_second,set_deltas}, pack_to_funding_amount_per_size, PerpMarketMutExt::{update_funding,apply_delta_to_funding_amount_per_size,apply_delta_to_claimable_funding_amount_per_size}, Prices::validate
-//@ bound=width-reduced T=u8, DECIMALS=1: every u8 open-interest pool, funding index pool, funding parameter, adjustment, price (validity decided by the code), i8 stored factor, u64 elapsed time; exponent in {0, 1*UNIT}; one execution from an arbitrary state (P2 step)
+//@ bound=width-reduced T=u8, DECIMALS=1: every u8 open-interest pool, funding index pool, funding parameter, price (validity decided by the code), i8 stored factor, u64 elapsed time; funding adjustment fixed to 1 (a program constant); exponent in {0, 1*UNIT}; one execution from an arbitrary state (P2 step)
 //@ stubs=market environment = plain-struct VMarket; the funding clock is the field passed_funding
 #[kani::proof]
 #[kani::unwind(5)]
 fn c12_execute_indices_only_grow_u8() {
-    w8::execute_indices_only_grow();
+    w8::execute_indices_only_grow(Some(1));
+}
+
+//@ prop=C12 tier=thorough kind=hold
+//@ enc=UpdateFundingState::{execute,next_funding_amount_per_size,next_funding_factor_per_second,set_deltas}, pack_to_funding_amount_per_size, PerpMarketMutExt::{update_funding,apply_delta_to_funding_amount_per_size,apply_delta_to_claimable_funding_amount_per_size}
+//@ bound=width-reduced T=u8, DECIMALS=1: as c12_execute_indices_only_grow_u8 with every u8 funding adjustment
+//@ stubs=market environment = plain-struct VMarket
+//@ timeout=5400 mem=30
+#[kani::proof]
+#[kani::unwind(5)]
+fn c12_execute_indices_only_grow_any_adj_u8() {
+    w8::execute_indices_only_grow(None);
 }
 
 //@ prop=C12 tier=quick kind=hold
